@@ -4,8 +4,51 @@
 use sc62015_core::CoreRuntime;
 use serde_json::{json, Value};
 
+/// Internal-memory wide stores through the CPU bus: `MVW (n),imm16` / `MVP (n),imm20` on one runtime against the same
+/// bytes stored one by one (`MV (n+i),imm8`) on a second, fresh runtime: every targeted byte, and the keyboard strobe
+/// registers, must end up the same (a wide access is the composition of its byte accesses).
+fn imem_mode(v: &Value) -> Value {
+    let n = v.get("imem_n").and_then(|x| x.as_u64()).unwrap_or(0x20) as u8;
+    let val = v.get("val").and_then(|x| x.as_u64()).unwrap_or(0) as u32;
+    let bits = v.get("bits").and_then(|x| x.as_u64()).unwrap_or(16) as u32;
+    let nb = (bits / 8) as u8;
+    let b = |i: u32| ((val >> (8 * i)) & if i == 2 { 0x0F } else { 0xFF }) as u8;
+    let wide: Vec<u8> = if nb == 2 { vec![0x32, 0xCD, n, b(0), b(1)] } else { vec![0x32, 0xDC, n, b(0), b(1), b(2)] };
+    let mut bytewise: Vec<u8> = Vec::new();
+    for i in 0..nb {
+        bytewise.extend_from_slice(&[0x32, 0xCC, n.wrapping_add(i), b(i as u32)]);
+    }
+    let run = |code: &Vec<u8>, steps: usize| -> Result<Value, String> {
+        let mut rt = CoreRuntime::new();
+        rt.load_rom(code, 0x1000);
+        rt.set_reg("PC", 0x1000);
+        rt.set_reg("S", 0x30000);
+        rt.timer.enabled = false;
+        rt.step(steps).map_err(|e| e.to_string())?;
+        let mut o = json!({});
+        crate::rt::obs_full(&rt, &mut o);
+        let im = o["imem"].as_str().unwrap_or("").to_string();
+        let mut got = Vec::new();
+        for i in 0..nb {
+            let off = n.wrapping_add(i) as usize;
+            got.push(u8::from_str_radix(&im[off * 2..off * 2 + 2], 16).unwrap_or(0));
+        }
+        Ok(json!({"bytes": got, "kol": o["kol"], "koh": o["koh"], "kil_latch": o["kil_latch"]}))
+    };
+    let a = run(&wide, 1);
+    let c = run(&bytewise, nb as usize);
+    match (a, c) {
+        (Ok(a), Ok(c)) => json!({"ok": a == c, "detail": [{"clause": "wide internal store vs byte stores", "wide": a, "bytewise": c}],
+                                 "imem_n": n, "bits": bits}),
+        (a, c) => json!({"ok": false, "error": format!("{:?} / {:?}", a.err(), c.err())}),
+    }
+}
+
 pub fn main() {
     crate::run_lines(|v| {
+        if v.get("imem_n").is_some() {
+            return imem_mode(&v);
+        }
         let addr = v.get("addr").and_then(|x| x.as_u64()).unwrap_or(0x20000) as u32 & 0xFFFFF;
         let val = v.get("val").and_then(|x| x.as_u64()).unwrap_or(0) as u32;
         let n = v.get("n").and_then(|x| x.as_u64()).unwrap_or(0x20) as u8;
